@@ -20,16 +20,17 @@ Example diamond_high_water :
   max_in_degree diamond = 2 /\ fuel_of diamond = 10.
 Proof. vm_compute. repeat split; reflexivity. Qed.
 
-(* a processor built with capacity 0 (Vec::new): the first call grows both vectors, every
+(* a processor built with capacity 0 (Vec::new): the first call grows both vectors (once each:
+   std's first allocation holds 4 elements), every
    later call, from a processor left in any state, reallocates nothing *)
 Definition dirty : processor :=
   {| dfs := {| stack := [7; 7; 2]; disc := [0; 1; 2; 3]; fin := [3; 1] |}; cap := 2 |}.
 
 Example diamond_first_call_grows :
-  snd (vrun {| vlen := 0; vcap := 0 |} (fst d_ops)) = 3 /\
+  snd (vrun {| vlen := 0; vcap := 0 |} (fst d_ops)) = 1 /\
   vcap (fst (vrun {| vlen := 0; vcap := 0 |} (fst d_ops))) = 4 /\
-  snd (vrun {| vlen := 0; vcap := 0 |} (snd d_ops)) = 2 /\
-  vcap (fst (vrun {| vlen := 0; vcap := 0 |} (snd d_ops))) = 2.
+  snd (vrun {| vlen := 0; vcap := 0 |} (snd d_ops)) = 1 /\
+  vcap (fst (vrun {| vlen := 0; vcap := 0 |} (snd d_ops))) = 4.
 Proof. vm_compute. repeat split; reflexivity. Qed.
 
 Example diamond_steady :
